@@ -320,14 +320,17 @@ def compare_ab(engine_a, per_row, k):
 MODES = ["matrix", "matrix", "matrix", "vars", "vars", "vars", "1d", "0d"]
 
 
-def one_case(ctx, fl, desc, verdict, stats, k, mode, warm):
+def one_case(ctx, fl, desc, verdict, stats, k, mode, warm, rows=None):
     """Runs (a) and (b) on one batch; returns the Coq case literals (batch, rows) or None when skipped."""
     n = len(desc["inputs"])
     if mode == "1d" and n > 1:
         k = 1
     if mode == "0d":
         k = 1
-    rows = gen_rows(ctx.rng, desc, k)
+    if rows is None:
+        rows = gen_rows(ctx.rng, desc, k)
+    else:
+        k = len(rows)
     if mode == "0d":
         rows = [[rows[0][0]] * n]
     with linear_terms():
@@ -578,6 +581,167 @@ def run_rows_plain(engine, rows):
     return raised, at, per_row, None, None
 
 
+# ------------------------------------------------------------------------------------------------ cascade stream
+def gen_cascade_engine(rng):
+    """Lock-previous outputs whose defuzzified value can be +-inf or undefined: weighted defuzzifiers over Linear terms (infinite
+    inputs) and Constant terms (finite, +inf, -inf), every default / lock-range combination."""
+    n = rng.choice([1, 1, 2])
+    inputs = []
+    for i in range(n):
+        inputs.append({"name": f"in{i}", "enabled": True, "min": 0.0, "max": 1.0, "lock_range": rng.random() < 0.15,
+                       "terms": [{"name": f"t{i}0", "class": "Ramp", "params": {"start": 1.0, "end": 0.0, "height": 1.0}},
+                                 {"name": f"t{i}1", "class": "Ramp", "params": {"start": 0.0, "end": 1.0, "height": 1.0}},
+                                 {"name": f"t{i}2", "class": "Triangle", "params": {"left": 0.0, "top": 0.5, "right": 1.0, "height": 1.0}}]})
+    outputs = []
+    for j in range(rng.choice([1, 1, 2])):
+        terms = []
+        for t in range(3):
+            kind = rng.choice(["linear", "linear", "const", "const-inf"])
+            if kind == "linear":
+                m = rng.choice([n, n + 1])
+                terms.append({"name": f"o{j}{t}", "class": "Linear", "params": {"coefficients": [rng.choice([1.0, -1.0, 2.0, -0.5, 3.0]) for _ in range(m)]}})
+            elif kind == "const":
+                terms.append({"name": f"o{j}{t}", "class": "Constant", "params": {"value": rng.choice([0.0, 1.0, -2.5, round(rng.uniform(-3, 3), 2)])}})
+            else:
+                terms.append({"name": f"o{j}{t}", "class": "Constant", "params": {"value": rng.choice([math.inf, -math.inf])}})
+        lo, hi = rng.choice([(-10.0, 10.0), (0.0, 1.0), (-1.0, 4.0)])
+        outputs.append({"name": f"out{j}", "enabled": True, "min": lo, "max": hi, "lock_range": rng.random() < 0.4, "lock_previous": True,
+                        "default": rng.choice([math.nan, math.nan, 0.5, round(rng.uniform(lo - 1, hi + 1), 2)]),
+                        "aggregation": rng.choice(["Maximum", "UnboundedSum", None]),
+                        "defuzzifier": (rng.choice(["WeightedAverage", "WeightedSum"]), rng.choice(["Automatic", "TakagiSugeno"])), "terms": terms})
+    rules = []
+    for o in outputs:
+        for t in range(3):
+            iv = rng.choice(inputs)
+            rules.append({"antecedent": f"{iv['name']} is {iv['terms'][t]['name']}", "consequent": f"{o['name']} is {o['terms'][t]['name']}",
+                          "weight": rng.choice([1.0, 1.0, 0.5]), "enabled": True})
+    blocks = [{"name": "rb", "enabled": True, "conjunction": "Minimum", "disjunction": "Maximum", "implication": "Minimum", "activation": ("General",), "rules": rules}]
+    return {"name": "c", "inputs": inputs, "outputs": outputs, "blocks": blocks}
+
+
+def gen_cascade_rows(rng, n):
+    """A sequence over {finite, +inf, -inf, NaN} rows in which an infinite row is immediately followed by NaN rows."""
+    def row(kind):
+        if kind == "fin":
+            return [rng.choice([0.25, 0.75, 0.5, 0.0, 1.0, rng.random()]) for _ in range(n)]
+        v = {"+inf": math.inf, "-inf": -math.inf, "nan": math.nan}[kind]
+        r = [v] * n
+        if n > 1 and kind != "nan" and rng.random() < 0.5:  # only one variable infinite
+            r[rng.randrange(n)] = rng.random()
+        return r
+    kinds = [rng.choice(["fin", "+inf", "-inf", "nan"]) for _ in range(rng.choice([2, 3, 4, 5]))]
+    at = rng.randrange(len(kinds) + 1)
+    kinds[at:at] = [rng.choice(["+inf", "-inf"]), "nan"] + (["nan"] if rng.random() < 0.4 else [])
+    return [row(kd) for kd in kinds][:8], kinds[:8]
+
+
+# ------------------------------------------------------------------------------------------------ float path vs array path of every kernel
+def kernel_probe(ctx, fl, verdict, stats, n_inputs, n_params):
+    """Every term class, hedge, monotonic inverse and norm of the generators: the value computed for a Python float /
+    numpy.float64 operand (what float mode feeds it) against element i of the value computed for the array (batch mode), exactly."""
+    import termlib
+
+    info = {"kernels": 0, "evaluations": 0, "differences": {}}
+    hits = []  # (label, engine factory, x)
+
+    def same(a, b):
+        a = np.asarray(a, dtype=float).ravel()
+        b = np.asarray(b, dtype=float).ravel()
+        return [i for i in range(len(b)) if not feq(a[i] if len(a) > 1 else a[0], b[i])]
+
+    def engine_for(term, hedge=None, in_consequent=False):
+        def mk():
+            lo, hi = -1e6, 1e6
+            rule = f"if a is {hedge + ' ' if hedge and not in_consequent else ''}t then x is {hedge + ' ' if hedge and in_consequent else ''}p"
+            return fl.Engine(name="kernel",
+                             input_variables=[fl.InputVariable("a", minimum=lo, maximum=hi, terms=[term()])],
+                             output_variables=[fl.OutputVariable("x", minimum=0.0, maximum=1.0, aggregation=fl.Maximum(), defuzzifier=fl.WeightedSum(), terms=[fl.Constant("p", 1.0)])],
+                             rule_blocks=[fl.RuleBlock("rb", conjunction=fl.Minimum(), disjunction=fl.Maximum(), implication=fl.Minimum(), activation=fl.General(), rules=[fl.Rule.create(rule)])])
+        return mk
+
+    with np.errstate(all="ignore"):
+        # ---- Term.membership
+        for cls in E.ALGEBRAIC_TERMS + E.TRANSCENDENTAL_TERMS + ["Constant"]:
+            for _ in range(n_params):
+                params = termlib.gen_params(cls, ctx.rng)
+                xs = [x for x, _ in termlib.gen_xs(cls, params, ctx.rng, n_inputs)]
+                mkterm = (lambda cls=cls, params=params: E.build_term(fl, {"name": "t", "class": cls, "params": params}))
+                term = mkterm()
+                arr = term.membership(np.array(xs, dtype=float))
+                info["kernels"] += 1
+                info["evaluations"] += len(xs)
+                bad = [i for i, x in enumerate(xs) if not feq(term.membership(float(x)), np.asarray(arr).ravel()[i if np.size(arr) > 1 else 0])]
+                if bad:
+                    info["differences"][f"{cls}.membership"] = info["differences"].get(f"{cls}.membership", 0) + len(bad)
+                    hits.append((f"{cls}.membership {params}", engine_for(mkterm), [xs[i] for i in bad[:5]]))
+                # ---- Term.tsukamoto (the degree reaches it as numpy.float64 in float mode)
+                if cls in E.MONOTONIC_TERMS:
+                    ws = [ctx.rng.random() for _ in range(n_inputs // 2)] + [0.0, 1.0, 0.5]
+                    arr = np.asarray(term.tsukamoto(np.array(ws)), dtype=float).ravel()
+                    info["kernels"] += 1
+                    info["evaluations"] += len(ws)
+                    bad = [i for i, w in enumerate(ws) if not feq(term.tsukamoto(np.nan_to_num(np.float64(w))), arr[i])]
+                    if bad:
+                        info["differences"][f"{cls}.tsukamoto"] = info["differences"].get(f"{cls}.tsukamoto", 0) + len(bad)
+                        hits.append((f"{cls}.tsukamoto {params}", None, [ws[i] for i in bad[:5]]))
+        # ---- hedges: fed by a membership value (antecedent) and by weight * degree (consequent)
+        ramp = lambda: fl.Ramp("t", 0.0, 1.0)  # noqa
+        xs = [ctx.rng.random() for _ in range(n_inputs)] + [0.0, 1.0, 0.5, math.nan]
+        for hname in E.HEDGES:
+            h = fl.FactoryManager().hedge.construct(hname) if hasattr(fl, "FactoryManager") else getattr(fl, hname.capitalize())()
+            arr = np.asarray(h.hedge(ramp().membership(np.array(xs))), dtype=float).ravel()
+            arr_c = np.asarray(h.hedge(1.0 * ramp().membership(np.array(xs))), dtype=float).ravel()
+            info["kernels"] += 2
+            info["evaluations"] += 2 * len(xs)
+            t = ramp()
+            bad = [i for i, x in enumerate(xs) if not feq(h.hedge(t.membership(float(x))), arr[i if len(arr) > 1 else 0])]
+            bad_c = [i for i, x in enumerate(xs) if not feq(h.hedge(1.0 * t.membership(float(x))), arr_c[i if len(arr_c) > 1 else 0])]
+            if bad and hname != "any":
+                info["differences"][f"hedge {hname} (antecedent)"] = len(bad)
+                hits.append((f"hedge {hname} in the antecedent", engine_for(ramp, hname, False), [xs[i] for i in bad[:5]]))
+            if bad_c and hname != "any":
+                info["differences"][f"hedge {hname} (consequent)"] = len(bad_c)
+                hits.append((f"hedge {hname} in the consequent", engine_for(ramp, hname, True), [xs[i] for i in bad_c[:5]]))
+        # ---- norms on numpy.float64 operands
+        pairs = [(ctx.rng.random(), ctx.rng.random()) for _ in range(n_inputs // 2)] + [(0.0, 1.0), (1.0, 1.0), (0.0, 0.0), (0.5, 0.5)]
+        a_arr, b_arr = np.array([p[0] for p in pairs]), np.array([p[1] for p in pairs])
+        for nname in E.TNORMS + E.SNORMS:
+            norm = getattr(fl, nname)()
+            arr = np.asarray(norm.compute(a_arr, b_arr), dtype=float).ravel()
+            info["kernels"] += 1
+            info["evaluations"] += len(pairs)
+            bad = [i for i, (a, b) in enumerate(pairs) if not feq(norm.compute(np.float64(a), np.float64(b)), arr[i])]
+            if bad:
+                info["differences"][f"norm {nname}"] = len(bad)
+                hits.append((f"norm {nname}", None, [pairs[i] for i in bad[:5]]))
+    stats["kernel_probe"] = info
+    # ---- every difference is confirmed on an engine: float mode against batch mode
+    for label, mk, points in hits:
+        if mk is None:
+            stats["oracle_violations"] += 1
+            verdict.add_violation("batch:scalar-vs-array-kernel", f"{label}: the value for a numpy.float64 operand differs from the array element at {points[:3]} (float mode and batch mode round differently)",
+                                  {"kernel": label, "points": [repr(p) for p in points]})
+            continue
+        for x in points:
+            ea, eb = mk(), mk()
+            with np.errstate(all="ignore"):
+                ea.input_values = np.array([[x], [x]], dtype=float)
+                ea.process()
+                eb.input_variables[0].value = float(x)
+                eb.process()
+            va = float(np.asarray(ea.output_variables[0].value, dtype=float).ravel()[0])
+            vb = float(eb.output_variables[0].value)
+            da = float(np.asarray(ea.output_variables[0].fuzzy.terms[0].degree, dtype=float).ravel()[0])
+            db = float(np.asarray(eb.output_variables[0].fuzzy.terms[0].degree, dtype=float).ravel()[0])
+            if not feq(va, vb) or not feq(da, db):
+                stats["oracle_violations"] += 1
+                verdict.add_violation("batch:scalar-vs-array-kernel",
+                                      f"{label}: `{eb.rule_blocks[0].rules[0].text}` at a = {x!r} ({float(x).hex()}): activation degree {da.hex()} / output {va.hex()} in a batch, "
+                                      f"{db.hex()} / {vb.hex()} as a float (the float path and the array path of the kernel round differently)",
+                                      {"engine_fll": str(eb), "mode": "matrix", "rows": [[float(x)], [float(x)]], "warm_row": None, "kernel": label})
+                break
+
+
 # ------------------------------------------------------------------------------------------------ driver
 def run(ctx, build, verdict, ev):
     import fuzzylite as fl
@@ -646,8 +810,25 @@ def run(ctx, build, verdict, ev):
                     samples.append(index[-1])
         if len(lits_a) >= 1800:
             flush()
+    # targeted stream: lock-previous outputs with +-inf / undefined rows inside one batch
+    stats["cascade_stream"] = {"engines": 0, "batches": 0, "inf_then_nan_outputs": 0}
+    for kk in range(ctx.n(40, 1200)):
+        desc = gen_cascade_engine(ctx.rng)
+        stats["cascade_stream"]["engines"] += 1
+        for _ in range(2):
+            rows, kinds = gen_cascade_rows(ctx.rng, len(desc["inputs"]))
+            mode = ctx.rng.choice(["matrix", "vars"])
+            res, nontrivial, rows = one_case(ctx, fl, desc, verdict, stats, len(rows), mode, warm=ctx.rng.random() < 0.5, rows=rows)
+            stats["cascade_stream"]["batches"] += 1
+            if res is not None:
+                lits_a.append(res[0])
+                lits_b.append(res[1])
+                index.append({"engine": f"cascade-{kk}", "profile": "cascade", "kind": "takagi-sugeno", "mode": mode, "rows": rows, "engine_desc": desc})
+        if len(lits_a) >= 1800:
+            flush()
     set_lits, set_index = setter_cases(ctx, fl, ctx.n(150, 1500))
     pow_probe(ctx, fl, verdict, stats, ctx.n(4000, 60000))
+    kernel_probe(ctx, fl, verdict, stats, ctx.n(2000, 20000), ctx.n(3, 6))
     examples_run(ctx, fl, verdict, stats, ctx.n(16, 64))
     flush(set_lits, set_index)
     ncases = dict(counts)
@@ -658,14 +839,14 @@ def run(ctx, build, verdict, ev):
     if mism["setter"]:
         verdict.add_broken("correspondence", "Engine.input_values setter/getter", f"model and implementation differ on {len(mism['setter'])} of {ncases['setter']} cases, first: {mism['setter'][:3]}")
     c = ev["coverage"]
-    c["evaluations"] = stats["rows"] + stats["examples"]["rows"] + stats["pow_probe"]["rows"]
+    c["evaluations"] = stats["rows"] + stats["examples"]["rows"] + stats["pow_probe"]["rows"] + stats["kernel_probe"]["evaluations"]
     c["distinct_nontrivial"] = len(distinct)
     c["rule"] = ("random General-activation engines (enginelib: 1-3 inputs, 1-2 outputs, 1-2 blocks, 1-6 rules, nested and/or antecedents with 0-3 hedges and `any`, output variables in antecedents, "
                  "hedged conclusions, weights, every enabled flag, every norm or the non-commutative lambda operators, integral defuzzifiers with resolution 1-64, weighted defuzzifiers over Constant, Linear and monotonic terms; "
                  "every lock-previous / default / lock-range combination) x batches of 1-8 rows (interior, range bounds, term break-points +-1 ulp, out of range, +-inf, NaN, whole NaN/inf rows, repeated rows) x "
                  "setting modes (matrix through Engine.input_values, per-variable arrays, the 1-d and 0-d forms of the setter), half of them after a warm-up row (non-NaN previous values), float-mode engine a deep copy or a rebuild; "
                  "implementation batch vs implementation row-by-row compared exactly (output_values, fuzzy_value strings, exceptions); Coq process_rows vs float mode (value, previous value, fuzzy terms, rule degrees, per row) and "
-                 "Coq process_batch vs batch mode (same, with array shapes, and output_values); plus Engine.input_values setter/getter cases, a last-bit search on the hedge `extremely`, and every shipped example engine; "
+                 "Coq process_batch vs batch mode (same, with array shapes, and output_values); plus a targeted stream of lock-previous Takagi-Sugeno engines (Linear / Constant +-inf consequents) on batches that put NaN rows right after +-inf rows, Engine.input_values setter/getter cases, a float-path vs array-path comparison of EVERY term class, monotonic inverse, hedge and norm (a few parameterisations x ~2000 inputs each, differences confirmed on an engine), and every shipped example engine; "
                  "non-trivial = distinct (engine, batch) with >= 2 rows where a rule fired and the last row has a numeric output")
     c["distribution"] = stats
     c["coq_cases"] = ncases
